@@ -125,6 +125,108 @@ pub fn gen_script_ex(rng: &mut Rng, n_ops: usize, with_faults: bool, with_timeou
     steps
 }
 
+/// Independent of the model: while a search is registered with the driver, every frame the driver
+/// consumes under its ID must reach the stream, in order — what `next()` returned so far is a
+/// PREFIX of those frames; and a stream only sees "closed" when the driver ended, the search was
+/// abandoned / scrubbed, or its receiver had gone.
+pub fn completeness(trace: &[String]) -> (bool, String) {
+    use std::collections::HashMap;
+    let mut sent: Vec<(String, String, String)> = vec![]; // (id, op, tok) in sending order
+    let mut consumed = 0usize;
+    let mut opq: Vec<(String, String)> = vec![]; // (op index, kind)
+    let mut pending_op: Option<(String, String, String)> = None; // (op index, id, kind)
+    let mut reg: HashMap<String, String> = HashMap::new(); // id -> op index of the registered search
+    let mut expect: HashMap<String, Vec<String>> = HashMap::new(); // op index -> tokens routed to it
+    let mut got: HashMap<String, usize> = HashMap::new(); // op index -> how many taken
+    let mut id_of: HashMap<String, String> = HashMap::new();
+    let mut released: std::collections::HashSet<String> = Default::default(); // op indices legitimately closed
+    let mut driver_ended = false;
+    for (ti, t) in trace.iter().enumerate() {
+        let w: Vec<&str> = t.split(' ').collect();
+        match (w[0], w.get(1).copied().unwrap_or("")) {
+            ("cli", "issue") => opq.push((w[2].to_string(), w[3].to_string())),
+            ("srv", "send") => sent.push((w[2].to_string(), w[3].to_string(), w[4].to_string())),
+            ("drv", "op") => {
+                if !opq.is_empty() {
+                    let (oi, kind) = opq.remove(0);
+                    pending_op = Some((oi, w[2].to_string(), kind));
+                }
+            }
+            ("drv", "opskipped") => {
+                if let Some((oi, _, _)) = pending_op.take() {
+                    released.insert(oi);
+                }
+            }
+            ("drv", "sent") => {
+                if let Some((oi, id, kind)) = pending_op.take() {
+                    id_of.insert(oi.clone(), id.clone());
+                    if kind == "search" {
+                        reg.insert(id, oi);
+                    } else if let Some(t) = kind.strip_prefix("abandon:") {
+                        if let Some(oi2) = reg.remove(t) {
+                            released.insert(oi2);
+                        }
+                    }
+                }
+            }
+            ("drv", "scrub") => {
+                if let Some(oi2) = reg.remove(w[2]) {
+                    released.insert(oi2);
+                }
+            }
+            ("drv", "resp") => {
+                if consumed < sent.len() {
+                    let (id, op, tok) = sent[consumed].clone();
+                    consumed += 1;
+                    let rejected = trace.get(ti + 1).map(|n| n == "drv end badresp").unwrap_or(false);
+                    if rejected {
+                        // undecodable for a search: the connection ends, nothing is routed
+                    } else if let Some(oi) = reg.get(&id).cloned() {
+                        if released.contains(&oi) {
+                            // receiver gone: the driver drops the entry on this frame
+                            reg.remove(&id);
+                        } else {
+                            expect.entry(oi.clone()).or_default().push(tok);
+                            if op == "5" {
+                                reg.remove(&id);
+                            }
+                        }
+                    }
+                }
+            }
+            ("drv", "end") | ("drv", "result") => driver_ended = true,
+            ("cli", "finish") => {
+                released.insert(w[2].to_string());
+            }
+            ("cli", "next") => {
+                let oi = w[2].to_string();
+                if w[4].starts_with("item:") {
+                    let tok = w[4].rsplit(':').next().unwrap().to_string();
+                    let n = got.entry(oi.clone()).or_insert(0);
+                    let exp = expect.get(&oi).cloned().unwrap_or_default();
+                    if exp.get(*n) != Some(&tok) {
+                        return (false, format!("search {} received token {} as its item #{}, the driver had routed {:?} to it", oi, tok, *n, exp));
+                    }
+                    *n += 1;
+                } else if w[4] == "closed" {
+                    let n = got.get(&oi).copied().unwrap_or(0);
+                    let exp = expect.get(&oi).cloned().unwrap_or_default();
+                    if n < exp.len() {
+                        return (false, format!("search {} saw end-of-stream with routed items still undelivered", oi));
+                    }
+                    if !driver_ended && !released.contains(&oi) {
+                        return (false, format!("search {} (id {:?}) saw end-of-stream although it was neither finished, abandoned nor scrubbed and the driver is alive", oi, id_of.get(&oi)));
+                    }
+                } else if w[4] == "timeout" {
+                    released.insert(oi);
+                }
+            }
+            _ => {}
+        }
+    }
+    (true, String::new())
+}
+
 pub fn run(thorough: bool, mut rng: Rng, mut out: Out) {
     let n = if thorough { 20000 } else { 2500 };
     for k in 0..n {
@@ -174,6 +276,8 @@ pub fn run(thorough: bool, mut rng: Rng, mut out: Out) {
             }
         }
         out.r(&format!("routing.token-matches-id script#{}", k), ok, &format!("{} ; trace: {}", why, ev));
+        let (ok2, why2) = completeness(&o.trace);
+        out.r(&format!("routing.search-sees-all-its-responses-in-order script#{}", k), ok2, &format!("{} ; trace: {}", why2, ev));
         out.r(&format!("routing.no-hang-after-driver-end script#{}", k), o.watchdog_stuck.is_empty(), &ev);
     }
     out.finish("random histories of 2..8 concurrent operations (single-result, searches, abandons) from cloned handles on one connection; scripted server answering in arbitrary order, entries of different searches interleaved, unsolicited/unknown/late IDs, optional timeouts and faults; non-trivial = at least 2 operations; distinct by FNV of the event trace");
